@@ -12,6 +12,12 @@ def run(F, G, tier, seed):
     writer.run_textedit(chk, F)
     from ..rules import printer
     printer.run_total(chk, F)       # `writing never crashes`: the writer prints possibly-empty expressions
+    from ..rules import nullness
+    from ..callgraph import CallGraph
+    CGw = CallGraph(F)
+    nullness.run_findderef(chk, F, CGw, nullness.WRITE_ENTRIES)
+    nullness.run_dataderef(chk, F, CGw, nullness.WRITE_ENTRIES)
+    nullness.run_childguard(chk, F, CGw, nullness.WRITE_ENTRIES)
     return chk.finish(
         "Decides reader/writer agreement: every member the reading side fills is read by the writer and written under "
         "a label kind the reader accepts; endpoints, element multiplicity and order; output only through libxml2's "
